@@ -636,7 +636,8 @@ Definition step (w : world) (o : op) : world :=
       if Nat.ltb u (w_nup w) && negb (uo_closed (w_up w u)) then
         let o := w_up w u in
         match c_group (w_cl w (uo_owner o)) with
-        | None => w                                 (* not reachable *)
+        | None => upd_up u (up_add_track k) w       (* pushConn: g == nil, nothing is scheduled
+                                                       (not reachable: a live stream's owner is in a group) *)
         | Some g =>
             new_timer u g
               (upd_up u (up_add_track k) w)
